@@ -87,7 +87,10 @@ impl SentenceDetector {
         }
     }
     pub fn with_limit(limit: usize) -> Self {
-        SentenceDetector { limit }
+        // at least one character must be processed at once, otherwise no progress is possible
+        SentenceDetector {
+            limit: limit.max(1),
+        }
     }
 
     /// Returns the byte index of the detected end of the sentence.
